@@ -568,6 +568,7 @@ def _is_boolish(e: ast.AST) -> bool:
 # ----------------------------------------------------------------------------- tiny concrete evaluator
 
 
+NUMPY_SCALAR_TRANSPARENT = ("asarray", "atleast_1d", "array", "float64", "squeeze", "any", "all", "asanyarray", "abs")
 CONST_METHODS = ("index", "count", "get", "keys", "values", "items", "startswith", "endswith", "lower", "upper", "strip", "split", "bit_length", "copy")
 _NOVALUE = object()
 
@@ -754,6 +755,13 @@ def ceval(expr: ast.AST, env: dict):
             if k.arg == "start":
                 start = ceval(k.value, env)
         return list(enumerate(ceval(expr.args[0], env), start))
+    if isinstance(expr, ast.Call) and (dotted(expr.func) or "").split(".")[0] in ("np", "numpy") and (dotted(expr.func) or "").split(".")[-1] in NUMPY_SCALAR_TRANSPARENT and len(expr.args) >= 1:
+        # on a scalar these numpy functions return (the truth value of) their argument
+        v = ceval(expr.args[0], env)
+        if isinstance(v, (bool, int, float)):
+            nm = (dotted(expr.func) or "").split(".")[-1]
+            return bool(v) if nm in ("any", "all") else v
+        raise Unknown(txt)
     if isinstance(expr, ast.Call) and isinstance(expr.func, ast.Name) and expr.func.id in ("bool", "int", "str") and len(expr.args) == 1:
         return {"bool": bool, "int": int, "str": str}[expr.func.id](ceval(expr.args[0], env))
     raise Unknown(txt)
